@@ -2,7 +2,47 @@
 use crate::model::nondet;
 use crate::net::TcpStream;
 use bytes::BufMut;
-use std::io;
+
+/// I/O error of the model: a plain kind tag.  (`std::io::Error`'s bit-packed representation
+/// and its `Box<dyn Error>` drop glue dominate CBMC's run time; rdest never inspects socket
+/// errors, it only maps them.)
+#[derive(Debug, Clone, Copy, PartialEq, Eq)]
+pub struct Error {
+    pub kind: ErrorKind,
+}
+
+#[derive(Debug, Clone, Copy, PartialEq, Eq)]
+pub enum ErrorKind {
+    NotFound,
+    PermissionDenied,
+    ConnectionRefused,
+    ConnectionReset,
+    BrokenPipe,
+    Other,
+}
+
+impl Error {
+    pub fn from(kind: ErrorKind) -> Error {
+        Error { kind }
+    }
+    pub fn kind(&self) -> ErrorKind {
+        self.kind
+    }
+}
+
+impl std::fmt::Display for Error {
+    fn fmt(&self, f: &mut std::fmt::Formatter<'_>) -> std::fmt::Result {
+        f.write_str("i/o error (model)")
+    }
+}
+
+impl std::error::Error for Error {}
+
+pub type Result<T> = std::result::Result<T, Error>;
+
+mod io {
+    pub use super::{Error, ErrorKind, Result};
+}
 
 pub trait AsyncReadExt {
     async fn read_buf<B: BufMut>(&mut self, buf: &mut B) -> io::Result<usize>;
@@ -32,8 +72,16 @@ impl AsyncReadExt for TcpStream {
                 if st.read_error {
                     return Err(io::Error::from(io::ErrorKind::ConnectionReset));
                 }
-                let avail = st.input.len() - st.pos;
+                let avail = st.limit - st.pos;
                 if avail > 0 {
+                    let start = st.pos;
+                    if st.deliver_all {
+                        let limit = st.limit;
+                        buf.put_slice(&st.input[start..limit]);
+                        st.pos = limit;
+                        st.reads += 1;
+                        return Ok(avail);
+                    }
                     let room = buf.remaining_mut();
                     let max = if avail < room { avail } else { room };
                     if max == 0 {
@@ -53,7 +101,6 @@ impl AsyncReadExt for TcpStream {
                         Some(_) => max,
                         None => nondet::range(1, max),
                     };
-                    let start = st.pos;
                     buf.put_slice(&st.input[start..start + n]);
                     st.pos = start + n;
                     st.reads += 1;
